@@ -120,6 +120,21 @@ fn extra_sets(tier: Tier) -> Vec<(String, Vec<(String, Vec<u8>)>)> {
         }
         v.push((format!("tricky name #{}", i), files));
     }
+    let mut pairs: Vec<(String, String)> = vcore::collide::pairs().iter().map(|(_, a, b)| (a.clone(), b.clone())).collect();
+    pairs.extend(vcore::sjis::suffix_pairs());
+    for (i, (a, b)) in pairs.iter().enumerate() {
+        let mut files = vec![(a.clone(), body(0, 5)), (b.clone(), body(1, 33))];
+        let ab = format!("{}{}", a, b);
+        if ab != *a && ab != *b {
+            files.push((ab, body(2, 1)));
+        }
+        v.push((format!("name pair #{}", i), files));
+        v.push((format!("name pair #{} reversed", i), vec![(b.clone(), body(0, 0)), (a.clone(), body(1, 32))]));
+    }
+    // every character of the Shift-JIS domain in a name, 40 per archive
+    for (i, chunk) in vcore::sjis::domain().chunks(40).enumerate() {
+        v.push((format!("domain characters #{}", i), chunk.iter().enumerate().map(|(k, ch)| (format!("{}{}x", ch, k), body(k % 4, k % 3))).collect()));
+    }
     let (counts, lens, names) = tier.pick((300usize, 200usize, 300usize), (1500, 700, 1200));
     for n in 0..=counts {
         v.push((format!("{} files", n), (0..n).map(|i| (format!("f{}", i), body(i % 4, (i * 7) % 5))).collect()));
